@@ -2755,9 +2755,15 @@ class Mesh:
                     # Found a region with a lower boundary - start stepping through
                     # y-connections from here
                     break
-                # note, if no region with connections['lower']=None is found, then some
-                # arbitrary region will be 'first_region' after this loop. This is OK,
-                # as this region must be part of a periodic group, which we will handle.
+            else:
+                # No region with connections['lower']=None is left, so all remaining
+                # regions belong to periodic groups. Start from the first one in y-index
+                # order, so that poloidal_distance and zShift on closed flux surfaces
+                # are measured from the first core cell (the lower X-point in the
+                # standard ordering) and the ShiftAngle jump is at the twist-shift
+                # branch cut.
+                i = 0
+                first_region = region_list[0]
 
             # Find all the regions connected in the y-direction to 'first_region' and
             # add them to 'group'. Remove them from 'region_list' since each region can
